@@ -292,8 +292,114 @@ fn check_raw(raw: &[u8], evm: &mut Runner, out: &mut Out, execute: bool) {
 /// (class, steps, gas_used), violations
 fn exec_deployed(evm: &mut Runner, raw: &[u8], calldata: &Bytes, extra: u64) -> ((String, u64, u64), Vec<(String, String)>) {
     let c = crate::props::c25::Case { spec: "OSAKA".into(), code: Bytes::copy_from_slice(raw), calldata: calldata.clone(), extra_gas: extra };
-    let (o, v) = crate::props::c25::run_on(evm, SpecId::OSAKA, &c);
+    let (o, mut v) = crate::props::c25::run_on(evm, SpecId::OSAKA, &c);
+    v.extend(executed_inside_immediates(raw, &o.eof_pcs));
     ((o.class, o.steps, o.gas_used), v)
+}
+
+/// For every instruction with immediates X and every immediate byte k of it: bodies in which a
+/// conditional jump (RJUMPI forward, RJUMPI backward, a one-entry RJUMPV) targets that byte. The
+/// immediates are NOPs / zeros, so that a validator that lets one through produces an execution that
+/// continues (and is seen by the boundary oracle) instead of stopping by accident.
+fn jumps_into_immediates() -> Vec<Vec<u8>> {
+    // (encoding, stack inputs, stack outputs)
+    let mut targets: Vec<(Vec<u8>, u16, u16)> = vec![
+        (vec![0x60, 0x5b], 0, 1),
+        (vec![0x61, 0x5b, 0x5b], 0, 1),
+        ({ let mut v = vec![0x7f]; v.extend_from_slice(&[0x5b; 32]); v }, 0, 1),
+        (vec![0xe0, 0x00, 0x00], 0, 0),
+        (vec![0xe1, 0x00, 0x00], 1, 0),
+        (vec![0xe2, 0x00, 0x00, 0x00], 1, 0),
+        (vec![0xe2, 0x01, 0x00, 0x00, 0x00, 0x00], 1, 0),
+        (vec![0xe2, 0x00, 0x00, 0x5b], 1, 0),
+        (vec![0xe6, 0x00], 1, 2),
+        (vec![0xe7, 0x00], 2, 2),
+        (vec![0xe8, 0x00], 3, 3),
+        (vec![0xd1, 0x00, 0x00], 0, 1),
+    ];
+    // the low byte of a one-entry table that is itself an instruction with an immediate
+    targets.push((vec![0xe2, 0x00, 0x00, 0x60], 1, 0));
+    let mut out = vec![];
+    for (x, ins, outs) in &targets {
+        for k in 1..x.len() {
+            let pushes = |n: u16| vec![0x5fu8; n as usize];
+            // RJUMPI forward: [inputs] PUSH0 RJUMPI(+k) X STOP
+            {
+                let mut b = pushes(*ins + 1);
+                b.extend_from_slice(&[0xe1, 0x00, k as u8]);
+                b.extend_from_slice(x);
+                b.push(0x00);
+                out.push((b, (*ins + 1).max(*outs)));
+            }
+            // one-entry RJUMPV forward
+            {
+                let mut b = pushes(*ins + 1);
+                b.extend_from_slice(&[0xe2, 0x00, 0x00, k as u8]);
+                b.extend_from_slice(x);
+                b.push(0x00);
+                out.push((b, (*ins + 1).max(*outs)));
+            }
+            // RJUMPI backward: [inputs] X PUSH0 RJUMPI(-(3 + len - k)) STOP
+            {
+                let mut b = pushes(*ins);
+                b.extend_from_slice(x);
+                let back = -((3 + x.len() - k) as i16);
+                let o = back.to_be_bytes();
+                b.push(0x5f);
+                b.extend_from_slice(&[0xe1, o[0], o[1]]);
+                b.push(0x00);
+                out.push((b, (*ins).max(*outs + 1)));
+            }
+        }
+    }
+    let mut raws = vec![];
+    for (body, ms) in out {
+        for m in [ms, ms + 1] {
+            let mut c = Cont::simple(body.clone(), m);
+            c.data = vec![0x22; 32];
+            c.data_hdr = 32;
+            raws.push(c.raw());
+        }
+    }
+    raws
+}
+
+/// number of immediate bytes of the EOF instruction at `i` (independent table: EIP-3540 family)
+fn imm_len(code: &[u8], i: usize) -> usize {
+    match code[i] {
+        op @ 0x60..=0x7f => (op - 0x5f) as usize,
+        0xe0 | 0xe1 | 0xe3 | 0xe5 | 0xd1 => 2,
+        0xe2 => 1 + 2 * (code.get(i + 1).copied().unwrap_or(0) as usize + 1),
+        0xe6 | 0xe7 | 0xe8 | 0xec | 0xee => 1,
+        _ => 0,
+    }
+}
+/// instruction starts of one code section by a linear sweep
+fn boundaries(code: &[u8]) -> Vec<bool> {
+    let mut b = vec![false; code.len()];
+    let mut i = 0;
+    while i < code.len() {
+        b[i] = true;
+        i += 1 + imm_len(code, i);
+    }
+    b
+}
+/// every instruction the outermost frame executed must start at an instruction boundary of its section
+fn executed_inside_immediates(raw: &[u8], pcs: &[(u64, usize, usize)]) -> Vec<(String, String)> {
+    let Some(top) = pcs.iter().map(|p| p.0).min() else { return vec![] };
+    let Ok(eof) = Eof::decode(Bytes::copy_from_slice(raw)) else { return vec![] };
+    let bounds: Vec<Vec<bool>> = eof.body.code_section.iter().map(|c| boundaries(c)).collect();
+    for (d, sec, pc) in pcs {
+        if *d != top {
+            continue;
+        }
+        match bounds.get(*sec).and_then(|b| b.get(*pc)) {
+            Some(true) => {}
+            Some(false) => return vec![("executed-inside-immediate".into(), format!("pc {pc} of code section {sec} was executed as an instruction, but it is an immediate byte of the preceding instruction"))],
+            None => return vec![("executed-outside-section".into(), format!("pc {pc} of code section {sec} was executed; the section has {} bytes", bounds.get(*sec).map(|b| b.len()).unwrap_or(0)))],
+        }
+    }
+    vec![]
 }
 fn exec_create(evm: &mut Runner, raw: &[u8], calldata: &Bytes, extra: u64) -> ((String, u64, u64), Vec<(String, String)>) {
     let spec = SpecId::OSAKA;
@@ -309,9 +415,10 @@ fn exec_create(evm: &mut Runner, raw: &[u8], calldata: &Bytes, extra: u64) -> ((
         tx.value = U256::ZERO;
     }
     evm.context.external = crate::monitor::Mon::new(false);
+    evm.context.external.trace_eof_pcs = true;
     let r = catch(|| evm.transact());
     let mon = std::mem::take(&mut evm.context.external);
-    let mut v = vec![];
+    let mut v = executed_inside_immediates(raw, &mon.eof_pcs);
     let class;
     let mut gas_used = 0;
     match r {
@@ -379,6 +486,8 @@ enum Job {
     Mutate { base: Vec<u8> },
     /// raw byte strings
     Raw { first: Option<u8> },
+    /// complete containers checked as they are
+    Exact { raws: Vec<Vec<u8>> },
 }
 
 fn run_job(j: &Job, evm: &mut Runner, out: &mut Out, execute: bool) {
@@ -422,6 +531,12 @@ fn run_job(j: &Job, evm: &mut Runner, out: &mut Out, execute: bool) {
                         check_raw(&c.raw(), evm, out, execute);
                     }
                 }
+            }
+        }
+        Job::Exact { raws } => {
+            for r in raws {
+                out.acc.bump("jump_into_immediate_containers", 1);
+                check_raw(r, evm, out, execute);
             }
         }
         Job::Mutate { base } => {
@@ -519,6 +634,7 @@ fn jobs(tier: Tier) -> Vec<Job> {
     for b in bases {
         v.push(Job::Mutate { base: b });
     }
+    v.push(Job::Exact { raws: jumps_into_immediates() });
     v.push(Job::Raw { first: None });
     for f in 0..=255u8 {
         v.push(Job::Raw { first: Some(f) });
@@ -576,10 +692,10 @@ pub fn run(ctx: &Ctx) -> i32 {
     let mut acc = o.acc;
     acc.bump("executions_of_accepted_containers", o.exec.evaluations);
     let meta = Meta {
-        rule: format!("containers encoded by an independent EIP-3540 encoder: one code section with every instruction sequence of depth <= {} over a {}-instruction EOF alphabet (RJUMP/RJUMPI offsets -4..3, RJUMPV, CALLF/JUMPF 0..2, DUPN/SWAPN/EXCHANGE, DATALOADN 0/1/32/65535, EOFCREATE/RETURNCONTRACT 0..1, EXT*CALL, disabled opcodes, truncated immediates) x max_stack 0..=4 x {{no, runtime, init}} sub-container; depth <= 2 bodies x 4 data shapes (incl. truncated) x 5 sub-container lists; 2-section containers (depth <= 2 x depth <= {} over 14 instructions x 6 type signatures x max_stack products) and 3-section containers; every single-byte substitution from 10 values at every position, every truncation and one appended byte of 6+ well-formed containers; every byte string of length <= 2 and every ef-prefixed string of length 3; distinct = distinct (verdict class, length) and (execution outcome, steps, gas)", ctx.tier.pick(3, 4), alphabet().len(), ctx.tier.pick(2, 3)),
+        rule: format!("containers encoded by an independent EIP-3540 encoder: one code section with every instruction sequence of depth <= {} over a {}-instruction EOF alphabet (RJUMP/RJUMPI offsets -4..3, RJUMPV, CALLF/JUMPF 0..2, DUPN/SWAPN/EXCHANGE, DATALOADN 0/1/32/65535, EOFCREATE/RETURNCONTRACT 0..1, EXT*CALL, disabled opcodes, truncated immediates) x max_stack 0..=4 x {{no, runtime, init}} sub-container; depth <= 2 bodies x 4 data shapes (incl. truncated) x 5 sub-container lists; 2-section containers (depth <= 2 x depth <= {} over 14 instructions x 6 type signatures x max_stack products) and 3-section containers; every single-byte substitution from 10 values at every position, every truncation and one appended byte of 6+ well-formed containers; for each of 13 immediate-carrying instructions and each of its immediate bytes, bodies whose RJUMPI (forward, backward) or one-entry RJUMPV targets that byte; every byte string of length <= 2 and every ef-prefixed string of length 3; distinct = distinct (verdict class, length) and (execution outcome, steps, gas)", ctx.tier.pick(3, 4), alphabet().len(), ctx.tier.pick(2, 3)),
         assumptions: vec![
             "validation is run in both modes (runtime: first section may STOP/RETURN; initcode: must RETURNCONTRACT); a container accepted as runtime code is executed as deployed code, one accepted as initcode is executed as a creation transaction, under OSAKA".into(),
-            "execution oracle = C25's: no panic (debug assertions on), instruction pointer inside the current code section after every step, defined result, gas_used <= gas_limit".into(),
+            "execution oracle = C25's: no panic (debug assertions on), instruction pointer inside the current code section after every step, defined result, gas_used <= gas_limit; plus: every pc the outermost frame executes is an instruction start of its code section according to an independent linear sweep (immediate sizes from EIP-3540/4200/4750/663/7480/7620)".into(),
         ],
         bounds: json!({"single_section_depth": ctx.tier.pick(3, 4), "alphabet": alphabet().len(), "max_stack": "0..=4"}),
         min_distinct: 30,
